@@ -1,7 +1,149 @@
-import Driver.Util
-open Lean
+import Driver.ProgJson
+import Heph.Model.Switches
+/-! ops of C17: `switches.ok` (the program-level predicate, with a locator for the first
+    offending occurrence), and the decision functions `switches.draw_bool`,
+    `switches.type_param_flags`, `switches.func_type_params`. -/
+open Lean Heph Heph.Switches
 namespace Driver.Switches
 
-def handle : Handler := fun _ _ => none
+abbrev Viol := Array (List String × String)
+
+/-- locator (diagnostics only; the verdict is `switchesOK`): every offending sub-term of a type
+    occurrence, with the path from the occurrence -/
+partial def locTy (cfg : Cfg) (path : List String) (t : Ty) (acc : Viol) : Viol :=
+  let acc :=
+    if tyLocalOK cfg t then acc else
+      match t with
+      | .wild v bd =>
+          let kind := match v, bd with
+            | _, none => "star-projection"
+            | 1, _ => "covariant-projection"
+            | 2, _ => "contravariant-projection"
+            | _, _ => "invariant-projection"
+          let sw := if cfg.noUseSite then "use-site-variance-disabled" else "use-site-contravariance-disabled"
+          acc.push (path.reverse, sw ++ ":" ++ kind)
+      | .tparam nm _ _ => acc.push (path.reverse, "bounded-type-parameters-disabled:bound-on:" ++ nm)
+      | _ => acc
+  let many (lbl : String) (l : List Ty) (acc : Viol) : Viol :=
+    (l.zipIdx).foldl (fun a (x, i) => locTy cfg (s!"{lbl}[{i}]" :: path) x a) acc
+  let opt (lbl : String) (o : Option Ty) (acc : Viol) : Viol :=
+    match o with | some x => locTy cfg (lbl :: path) x acc | none => acc
+  match t with
+  | .builtin _ _ _ _ ss => many "sup" ss acc
+  | .simple _ ss => many "sup" ss acc
+  | .tparam _ _ bd => opt "bound" bd acc
+  | .wild _ bd => opt "bound" bd acc
+  | .tcon _ _ ps ss => many "sup" ss (many "param" ps acc)
+  | .param _ con as ss => many "sup" ss (locTy cfg ("con" :: path) con (many "arg" as acc))
+  | _ => acc
+
+def nodeLabel : Node → String
+  | .block .. => "block" | .superInst .. => "super" | .classDecl nm .. => s!"class {nm}"
+  | .varDecl nm .. => s!"var {nm}" | .callArg .. => "arg" | .fieldDecl nm .. => s!"field {nm}"
+  | .paramDecl nm .. => s!"param {nm}" | .funcDecl nm .. => s!"func {nm}" | .lambda nm .. => s!"lambda {nm}"
+  | .funcRef f .. => s!"funcref {f}" | .bottom .. => "bottom" | .intC .. => "int" | .realC .. => "real"
+  | .boolC .. => "bool" | .charC .. => "char" | .stringC .. => "string" | .arrayE .. => "array"
+  | .variable nm => s!"variable {nm}" | .isE .. => "is" | .binop .. => "binop" | .cond .. => "cond"
+  | .newE .. => "new" | .fieldAccess _ f => s!"fieldaccess {f}" | .call f .. => s!"call {f}"
+  | .assign nm .. => s!"assign {nm}"
+
+/-- the type occurrences of a node with the name of the attribute they are stored in
+    (same order and content as `nodeTypes`) -/
+def labelledTypes : Node → List (String × Ty)
+  | .superInst t _ => [("class_type", t)]
+  | .classDecl _ _ _ _ _ _ tps => tps.zipIdx.map fun (t, i) => (s!"tparams[{i}]", t)
+  | .varDecl _ _ _ vt it => (vt.toList.map fun t => ("var_type", t)) ++ (it.toList.map fun t => ("inferred_type", t))
+  | .fieldDecl _ t _ _ _ => [("field_type", t)]
+  | .paramDecl _ t _ _ => [("param_type", t)]
+  | .funcDecl _ _ rt it _ _ _ tps _ =>
+      (rt.toList.map fun t => ("ret_type", t)) ++ ((it.toList.map fun t => ("inferred_type", t)) ++
+        (tps.zipIdx.map fun (t, i) => (s!"tparams[{i}]", t)))
+  | .lambda _ _ rt _ sg => (rt.toList.map fun t => ("ret_type", t)) ++ (sg.toList.map fun t => ("signature", t))
+  | .funcRef _ _ sg => sg.toList.map fun t => ("signature", t)
+  | .bottom t => t.toList.map fun t => ("t", t)
+  | .intC _ t => t.toList.map fun t => ("integer_type", t)
+  | .realC _ t => t.toList.map fun t => ("real_type", t)
+  | .arrayE t _ _ => [("array_type", t)]
+  | .isE _ t _ => [("rexpr", t)]
+  | .cond _ _ _ ty => ty.toList.map fun t => ("inferred_type", t)
+  | .newE t _ _ => [("class_type", t)]
+  | .call _ _ _ ta _ _ => ta.zipIdx.map fun (t, i) => (s!"type_args[{i}]", t)
+  | _ => []
+
+partial def locNode (cfg : Cfg) (lang : String) (path : List String) (n : Node) (acc : Viol) : Viol :=
+  let path := nodeLabel n :: path
+  let acc :=
+    if declLocalOK cfg lang n then acc else
+      match n with
+      | .classDecl .. => acc.push (path.reverse, s!"variant-class-type-parameter:{lang}")
+      | .funcDecl _ _ _ _ _ _ _ tps _ =>
+          let acc := if cfg.noParamFuncs && !tps.isEmpty
+            then acc.push (path.reverse, "parameterized-functions-disabled:function-type-parameters") else acc
+          if tps.all fun t => Ty.variance t == 0 then acc
+          else acc.push (path.reverse, "variant-function-type-parameter")
+      | _ => acc
+  let acc := (labelledTypes n).foldl (fun a (lbl, t) =>
+    if tyOK cfg t then a else locTy cfg (lbl :: path) t a) acc
+  (children n).foldl (fun a c => locNode cfg lang path c a) acc
+
+def parseCfg (j : Json) : Except String Cfg := do
+  let l ← getNatList j "cfg"
+  match l with
+  | [a, b, c, d] => pure ⟨a != 0, b != 0, c != 0, d != 0⟩
+  | _ => throw "cfg must be 4 ints"
+
+def violJson (v : List String × String) : Json :=
+  Json.mkObj [("path", ofStrList v.1), ("reason", Json.str v.2)]
+
+def parseDraw (j : Json) (k : String) : Except String Draw := do
+  match ← getNatList j k with
+  | [a, b] => pure ⟨a, b⟩
+  | _ => throw s!"{k} must be [num, den]"
+
+def parseProb (j : Json) (k : String) : Except String Prob := do
+  match ← getNatList j k with
+  | [a, b] => pure ⟨a, b⟩
+  | _ => throw s!"{k} must be [num, den]"
+
+def flagsJson (f : List Nat × Bool) : Json := Json.arr #[ofNatList f.1, Json.bool f.2]
+
+def handle : Handler := fun op j =>
+  match op with
+  | "switches.ok" => some (do
+      let (_, p) ← parseProgramObj j
+      let cfg ← parseCfg j
+      let lang := match getStr j "lang_override" with | .ok l => l | .error _ => p.lang
+      let ok := switchesOK cfg lang p
+      let vs := p.decls.foldl (fun a d => locNode cfg lang [] d a) #[]
+      if ok then
+        if vs.isEmpty then pure (res (Json.str "ok"))
+        else throw "locator reports a violation but switchesOK holds"
+      else match vs.toList with
+        | [] => throw "switchesOK fails but the locator finds nothing"
+        | v :: _ => pure (res (Json.mkObj [("path", ofStrList v.1), ("reason", Json.str v.2),
+                      ("count", Json.num (JsonNumber.fromNat vs.size)),
+                      ("reasons", ofStrList (vs.toList.map (·.2)).eraseDups),
+                      ("all", Json.arr ((vs.toList.take 40).toArray.map violJson))])))
+  | "switches.table" => some (do
+      -- the verified predicate under several (cfg, lang) rows: `"rows": [{"cfg": [4 ints], "lang": …}, …]`
+      let (_, p) ← parseProgramObj j
+      let rows ← getArr j "rows"
+      let out ← rows.toList.mapM fun row => do
+        pure (Json.bool (switchesOK (← parseCfg row) (← getStr row "lang") p))
+      pure (res (Json.arr out.toArray)))
+  | "switches.draw_bool" => some (do
+      pure (res (Json.bool (drawBool (← parseDraw j "r") (← parseProb j "p")))))
+  | "switches.type_param_flags" => some (do
+      pure (res (flagsJson (genTypeParamFlags (← getBool j "with_variance") (← parseProb j "p_bounded")
+        (← parseDraw j "r_var") (← parseDraw j "r_bound")))))
+  | "switches.func_gen_type_params" => some (do
+      let r := funcGenTypeParams (← getBool j "nested") (← getBool j "given") (← parseProb j "p_func") (← parseDraw j "r")
+      pure (res (match r with | none => Json.null | some b => Json.bool b)))
+  | "switches.cfg_probs" => some (do
+      let cfg ← parseCfg j
+      pure (res (Json.mkObj [("bounded", ofNatList [cfg.pBounded.num, cfg.pBounded.den]),
+                             ("param_funcs", ofNatList [cfg.pParamFuncs.num, cfg.pParamFuncs.den]),
+                             ("decl_variance", Json.bool (langHasDeclVariance (← getStr j "lang")))])))
+  | _ => none
 
 end Driver.Switches
